@@ -92,6 +92,12 @@ def install(E: Any, ghost: str = "fs", rec_name: str = "FS") -> None:
         return V(self.pre.none_val, __import__("pyvc.tys", fromlist=["NONE"]).NONE)
     E.builtins["json.dump"] = b_json_dump
 
+    def b_isfile(self: Any, n: ast.Call, st: Any) -> Any:
+        path = self.coerce(self.expr(n.args[0], st), STR)
+        files = self.read_field(st, fs_obj(self), "files")
+        return V(self.pre.mapf(files_ty, "has")(files.t, path.t), BOOL)
+    E.builtins["os.path.isfile"] = b_isfile
+
     def b_json_load(self: Any, n: ast.Call, st: Any) -> Any:
         f = self.expr(n.args[0], st)
         if getattr(f, "file_mode", None) not in ("r", "rt"):
